@@ -191,6 +191,11 @@ func runC06(ctx *h.Ctx) int {
 		for _, key := range prof.PoryKeys {
 			prog.Switches[key] = []string{"RUBY", "SAPPHIRE", "EMERALD", "1", "2", "OTHER"}[k.R.IntN(6)]
 		}
+		if k.R.IntN(3) == 0 {
+			// constants spelled like whole text contents: text content is never substituted
+			prog.Items = append([]spec.Item{&spec.Const{ID: prog.NewID(), Name: "Hello", Value: []string{"1"}}, &spec.Const{ID: prog.NewID(), Name: "x", Value: []string{"VAR_TEMP_2"}}}, prog.Items...)
+			k.Count("files_with_constants_spelled_like_texts", 1)
+		}
 		rp, rerr := spec.Resolve(prog, prog.Switches)
 		pr := layoutOf(k, prog, 0.15)
 		k.SetSource(pr.Src)
@@ -224,6 +229,75 @@ func runC06(ctx *h.Ctx) int {
 			k.Sample("hoisting", pr.Src)
 		}
 	})
+	// contents chosen so that naive sharing keys collide (or fail to collide)
+	ctx.RunCases("adversarial-sharing", ctx.N(3000, 100000), func(k *h.Case) {
+		r := k.R
+		g := spec.NewGen(r, spec.Profile{})
+		prog := g.Prog
+		step := func(name, mult string) *spec.ListElem {
+			return &spec.ListElem{ID: prog.NewID(), Name: name, Mult: mult, Comma: r.IntN(4) == 0}
+		}
+		moveVariants := [][]*spec.ListElem{
+			{step("delay_1", "6")}, {step("delay_16", "")}, {step("delay_1", ""), step("delay_1", "5")}, {step("delay_1", "0x6")},
+			{step("walk_1", "2")}, {step("walk_12", "")}, {step("walk_1", ""), step("walk_1", "")}, {step("walk_1", "1"), step("walk_1", "1")},
+			{step("ab", ""), step("c", "")}, {step("a", ""), step("bc", "")}, {step("abc", "")},
+			{step("walk_up", "11")}, {step("walk_up", "1"), step("walk_up1", "")}, {step("walk_up1", "1")},
+		}
+		text := func(typ string, parts ...string) *spec.TextVal {
+			return &spec.TextVal{ID: prog.NewID(), Type: typ, Parts: parts}
+		}
+		textVariants := []func() *spec.TextVal{
+			func() *spec.TextVal { return text("", "abc") }, func() *spec.TextVal { return text("", "abc$") }, func() *spec.TextVal { return text("", "ab", "c") },
+			func() *spec.TextVal { return text("", "a", "bc") }, func() *spec.TextVal { return text("ascii", "abc") }, func() *spec.TextVal { return text("ascii", `abc\0`) },
+			func() *spec.TextVal { return text("braille", "abc") }, func() *spec.TextVal { return text("custom", "abc") }, func() *spec.TextVal { return text("custom", "abc$") },
+			func() *spec.TextVal { return text("", "abc$$") }, func() *spec.TextVal { return text("", "") }, func() *spec.TextVal { return text("", "$") },
+		}
+		ns := 1 + r.IntN(3)
+		for i := 0; i < ns; i++ {
+			sc := &spec.Script{ID: prog.NewID(), Name: g.Name("Scr"), Body: &spec.Block{ID: prog.NewID()}}
+			nc := 2 + r.IntN(5)
+			for j := 0; j < nc; j++ {
+				c := &spec.Cmd{ID: prog.NewID(), Name: g.Name("cmd")}
+				na := 1 + r.IntN(3)
+				for a := 0; a < na; a++ {
+					switch r.IntN(3) {
+					case 0:
+						src := moveVariants[r.IntN(len(moveVariants))]
+						var cp []*spec.ListElem
+						pre := r.IntN(2)
+						if pre == 1 {
+							cp = append(cp, step("face_up", ""))
+						}
+						for _, e := range src {
+							cp = append(cp, step(e.Name, e.Mult))
+						}
+						c.Args = append(c.Args, &spec.Arg{Moves: cp})
+					case 1:
+						c.Args = append(c.Args, &spec.Arg{Text: textVariants[r.IntN(len(textVariants))]()})
+					default:
+						c.Args = append(c.Args, &spec.Arg{Toks: []string{"1"}})
+					}
+				}
+				sc.Body.Stmts = append(sc.Body.Stmts, &spec.CmdStmt{Cmd: c})
+			}
+			prog.Items = append(prog.Items, sc)
+		}
+		src := spec.Source(prog)
+		k.SetSource(src)
+		res := h.Compile(src, optsOf(prog, true))
+		k.Count("evaluations", 1)
+		if !res.OK() {
+			k.Count("rejected", 1)
+			k.Count("rejected: "+rejectFamily(res.ErrString()), 1)
+			return
+		}
+		k.Count("accepted", 1)
+		if hoistCheck(k, prog, res.Out, "adversarial") {
+			lm := buildLabelModel(prog)
+			k.Nontrivial("adv", len(lm.Texts), len(lm.Moves), len(res.Out)%31)
+			k.Count("adversarial_files_checked", 1)
+		}
+	})
 	// clashes between a user text/movement and a generated name must be errors
 	ctx.RunCases("clashes", ctx.N(1500, 40000), func(k *h.Case) {
 		g := spec.NewGen(k.R, prof)
@@ -233,7 +307,8 @@ func runC06(ctx *h.Ctx) int {
 		}
 		prog := g.Prog
 		for _, key := range prof.PoryKeys {
-			prog.Switches[key] = "RUBY"
+			// matching a named case, falling back to '_', or (rarely) an empty value
+			prog.Switches[key] = []string{"RUBY", "SAPPHIRE", "OTHER", "OTHER", ""}[k.R.IntN(5)]
 		}
 		rp, rerr := spec.Resolve(prog, prog.Switches)
 		if rerr != nil {
